@@ -17,6 +17,9 @@ Killed == o.kill_after > 0 \/ (o.kill_after = 0 /\ o.tail = "none" /\ Len(R) < o
 InOrderIntact == \A i \in 1..Len(R) : R[i][1] = i /\ (R[i][2] = "ok" \/ (i = Len(R) /\ i < o.n + 1))
 AllDelivered == (o.tail # "none") => (Len(R) = o.n /\ \A i \in 1..Len(R) : R[i][2] = "ok")
 NothingInvented == \A i \in 1..Len(R) : R[i][2] \notin {"corrupt", "tooshort", "hung", "oserror"}
+(* a sender that lives to send everything and then closes: every message is delivered -- no  *)
+(* end of stream is reported while the peer is still open and has more to say                 *)
+NoEarlyEnd == (~o.killed) => (Len(R) = o.n /\ \A i \in 1..Len(R) : R[i][2] = "ok")
 (* a clean close after the last message is an EOFError, nothing else *)
 CleanEnd == (o.tail # "none") => o.tail = "eof"
 (* a sender that dies inside a message: every complete message before it is delivered, the torn
